@@ -12,7 +12,7 @@ CHECKS = {
         "statement of what a path denotes); TLC checks the declarative/operational agreement and the per-parent index rule "
         "on every Map of the bounded space, prints every (Map, path, expected values) and the Go harness replays all of them "
         "on the real ValuesForPath/ValueForPath/Exists/ValueForPathString. Exhaustive inside the bounds, which is the right level "
-        "for a pure query whose defects are shape dependent (the pinned defect needed two indexed steps). Parametric families extend the reach: MC_Wide (lists/maps of 31-65 entries under four SetArraySize settings) and MC_Deep (four-level Maps, every path over the key chain with each step plain, indexed in/out of range or wildcard: 780 paths per Map).",
+        "for a pure query whose defects are shape dependent (the pinned defect needed two indexed steps). Parametric families extend the reach: MC_Wide (lists/maps of 31-65 entries under four SetArraySize settings) and MC_Deep (four-level Maps, every path over the key chain with each step plain, indexed in/out of range or wildcard: 780 paths per Map). The same document held as a graph (equal sub-documents as one object) must give the same values; lists of 300 members with three-digit indexes.",
    ref="DESIGN.md section 4, C07", technique="TLA+ spec + TLC exhaustive enumeration, spec->code replay of every behaviour"),
  "C08": dict(
    text="TLA+ specification of ValuesForKey, PathsForKey, PathForKeyShortest and the sub-key predicate (typed, wildcard, negated); TLC checks on every "
@@ -43,7 +43,7 @@ CHECKS = {
         "single-call loop and bulk handlers with nondeterministic verdicts; XML document boundaries by construction, the JSON brace scanner modelled at character level over "
         "streams constructed from abstract objects (braces, quotes, escaped quotes and backslashes in strings). TLC checks exhaustively for every stream profile and "
         "every schedule: no loss/duplication, no over-read, results = documents in order then EOF, Raw exact, handler discipline, termination under fairness; every complete "
-        "behaviour is replayed by a scripted io.Reader against all reader entry points, and every profile (whole and cut at every byte) through real temporary files. Unbounded stream length: the byte adaptor's safety is additionally discharged by an inductive invariant in Apalache (AdaptorInd.tla).",
+        "behaviour is replayed by a scripted io.Reader against all reader entry points, and every profile (whole and cut at every byte) through real temporary files. Unbounded stream length: the byte adaptor's safety is additionally discharged by an inductive invariant in Apalache (AdaptorInd.tla). The four XML readers are also run with the cast argument (reference: the direct decode with the cast argument), the file writers over existing longer files are read back (file family of C19), and a candidate that no sequential replay reproduces is replayed by 8 goroutines at once before it is dismissed.",
    ref="DESIGN.md section 4, C13", technique="TLA+ spec of reader/adaptor/decoder/handler processes, TLC exhaustive over schedules incl. liveness, schedule replay with scripted io.Reader"),
  "C18": dict(
    text="TLA+ specification MxjOptions of the ~21 package-level option registers as a state machine with one action per setter form; TLC explores the COMPLETE reachable register "
@@ -90,17 +90,17 @@ CHECKS = {
    text="TLA+ specification MxjCast of the cast decision chain over classification predicates (denotes int64 / uint64 / float64 / NaN-or-Inf / bool) supplied by a constants module that the harness generates from strconv on every run; "
         "TLC checks for every catalogue text (64-bit boundaries, decimal/exponent/hex floats, overflow, every case and sign variant of nan/inf/infinity, ParseBool's accepted and rejected spellings, ordinary text) and all 2^6 combinations of "
         "cast flag, int, float, bool, NaN/Inf and skip-tag options: no cast without the flag, never NaN/Inf unless asked, the chosen kind is one the text denotes. Every (text, combination) is replayed in element, attribute and text-key position "
-        "through NewMapXml, NewMapXmlSeq and the internal cast (hook), and Map.Json() must succeed whenever CastNanInf is off. Sessions of Mxj.tla: every history of four cast-register setter calls (set / clear / toggle) interleaved with cast decodes of eight leaf texts, compared after every decode.",
+        "through NewMapXml, NewMapXmlSeq and the internal cast (hook), and Map.Json() must succeed whenever CastNanInf is off. Sessions of Mxj.tla: every history of four cast-register setter calls (set / clear / toggle) interleaved with cast decodes of eight leaf texts, compared after every decode. Text ahead of a child element is a fourth position; keys and nesting of every cast decode must equal those of the un-cast decode.",
    ref="DESIGN.md section 4, C14", technique="TLA+ decision-chain spec over strconv-generated classification, exhaustive catalogue x options in TLC, spec->code replay"),
  "C16": dict(
    text="Encoding is specified as an operator of Map content (EncodeRoot / JsonOf of the encoder specifications, ascending key order checked by TLC); the state of MC_C16 is the content plus a construction history (insert / overwrite / delete), "
         "all histories of bounded length are enumerated and each is replayed into real Go maps of four capacities; the resulting Map is encoded three times through ~30 entry points (Xml, XmlWriter, XmlIndent[Writer], AnyXml, Json[Indent][Writer][Raw], "
-        "Maps.*String / *File forms, MapSeq.Xml[Writer][Indent]) and every output must equal the specification's bytes (compact), be token-equivalent (indented), equal the byte-returning form (Writer/Raw), or be the concatenation (Maps); failing sinks must surface their error.",
+        "Maps.*String / *File forms, MapSeq.Xml[Writer][Indent]) and every output must equal the specification's bytes (compact), be token-equivalent (indented), equal the byte-returning form (Writer/Raw), or be the concatenation (Maps); failing sinks must surface their error. Every JSON writer form under every spelling of the safe flag and three indent pairs, every XML variant again under XmlCheckIsValid(true), a single key holding a mixed list in either order, and sessions in which the DECODER's registers are toggled between encodings of a Map whose keys differ in case only (Mxj_enc).",
    ref="DESIGN.md section 4, C16", technique="TLA+ history enumeration (TLC) + content-function encoder spec, replay through all encoder variants with byte comparison"),
  "C17": dict(
    text="Purity: every Map of the builder's space is passed to every read-only method (all ValuesFor*/PathsFor*/Leaf*/Exists/Elements/Attributes/Root queries, XML/JSON/gob encoders, Copy, StringIndent, NewMap, MapSeq encoders) and deep-compared afterwards; "
         "Copy is followed by a mutation of every container of the copy (and of the original) with the other side compared. Concurrency: TLA+ specification MxjConc of G goroutines x programs x gate segments; TLC checks for every interleaving that the shared Map is "
-        "never written, results equal sequential results, and termination; every interleaving is then ENFORCED on real goroutines parked at the gate hook (build tag verif) and the results / shared Map compared, under a -race build, plus free-running stress (8 goroutines) where the race detector reports memory-level races. Fixed richer Maps (lists of records below indexed steps) are queried with indexed variants of every path and sub-keys taken from their content; the concurrent programs include the reader entry points over readers without ReadByte.",
+        "never written, results equal sequential results, and termination; every interleaving is then ENFORCED on real goroutines parked at the gate hook (build tag verif) and the results / shared Map compared, under a -race build, plus free-running stress (8 goroutines) where the race detector reports memory-level races. Fixed richer Maps (lists of records below indexed steps) are queried with indexed variants of every path and sub-keys taken from their content; the concurrent programs include the reader entry points over readers without ReadByte. Read-only calls must also leave every container OBJECT in place (identity), and the exotic Map carries a []byte with spare capacity and a sequence-shaped sub-document with float64 sequence numbers; free runs start with a series of failing calls.",
    ref="DESIGN.md section 4, C17", technique="TLA+ interleaving spec (TLC exhaustive), schedule replay with goroutine gates under the Go race detector, purity replay"),
  "C15": dict(
    text="(a) Character-level TLA+ specification MxjArgs of the path, sub-key, new-value and key-pair languages (split rules, index parsing, type names, error classes); TLC enumerates every string of <= N chunks over the significant characters "
